@@ -53,4 +53,15 @@ def maxM (region : String) (sf bw : Int) : Option Int :=
     else if bw = 250000 ∧ sf = 7 ∧ region ≠ "IN865" then some 250 else none
   | _ => none
 
+/-- RP002: the AS923 groups shift every default frequency by AS923_FREQ_OFFSET (AS923-1: 0,
+AS923-2: −1.80 MHz, AS923-3: −6.60 MHz, AS923-4: −5.90 MHz) -/
+def as923OffsetHz : String → Nat
+  | "AS923_2" => 1800000 | "AS923_3" => 6600000 | "AS923_4" => 5900000 | _ => 0
+
+/-- RP002 default RX2 frequency (Hz); for the AS923 groups 923.2 MHz + AS923_FREQ_OFFSET -/
+def rx2DefaultFreq : String → Nat
+  | "EU868" => 869525000 | "EU433" => 434665000 | "IN865" => 866550000
+  | "US915" | "AU915" => 923300000
+  | r => 923200000 - as923OffsetHz r
+
 end Spec.Regional
